@@ -34,6 +34,7 @@ type Prog struct {
 	countOf   map[string][]string // callee key -> labels
 	globalInvs []*GlobalInv
 	prot      []int
+	effFree   map[*ssa.Function]bool
 	protDone  bool
 	repoDir   string
 }
@@ -71,7 +72,7 @@ func loadProg(repoDir string, patterns []string) (*Prog, error) {
 		byPath:  map[string]*packages.Package{},
 		typeIDs: map[string]int{}, globals: map[*ssa.Global]int{}, embed: map[string]bool{}, holders: map[string]map[string]types.Type{},
 		contracts: map[string]*Contract{}, specFuncs: map[string]*SpecFunc{},
-		counts: map[string][]string{}, countOf: map[string][]string{},
+		counts: map[string][]string{}, countOf: map[string][]string{}, effFree: map[*ssa.Function]bool{},
 		repoDir: repoDir,
 	}
 	packages.Visit(pkgs, nil, func(pk *packages.Package) {
